@@ -91,6 +91,8 @@ func (ip *IPv4) getIPv4OptionSize() int {
 
 		}
 	}
+	// explicit padding bytes are part of the header as well
+	optionSize += len(ip.Padding)
 	// make sure the options are aligned to 32 bit boundary
 	if (optionSize % 4) != 0 {
 		optionSize += 4 - (optionSize % 4)
@@ -161,6 +163,9 @@ func (ip *IPv4) SerializeTo(b gopacket.SerializeBuffer, opts gopacket.SerializeO
 			curLocation += int(opt.OptionLength)
 		}
 	}
+	// what follows the options up to the 32 bit boundary: zeros, unless the
+	// layer carries explicit padding bytes (a decoded header keeps them here)
+	copy(bytes[curLocation:], ip.Padding)
 
 	if opts.ComputeChecksums {
 		// Clear checksum bytes
